@@ -52,6 +52,8 @@ func UnregisterUnserializer(format formats.Format) {
 }
 
 func GetFormatUnserializer(format formats.Format) (native.Unserializer, error) {
+	regMtx.RLock()
+	defer regMtx.RUnlock()
 	if _, ok := unserializers[format]; ok {
 		return unserializers[format], nil
 	}
